@@ -328,9 +328,18 @@ func (m *machine) drawWrite(allowRange bool) ref.Op {
 	case 'd':
 		return ref.Op{Kind: 'd', A: genKey(1).Draw(t, "k")}
 	default:
-		a, b := genKey(1).Draw(t, "ra"), genKey(1).Draw(t, "rb")
-		if bytes.Compare(a, b) > 0 {
+		// [start, end) in plain byte order: empty and nil bounds are ordinary byte strings (an empty END is an empty range,
+		// not "unbounded"), and start > end is a no-op (the repository's own conformance suite relies on that); one case in
+		// four keeps the drawn order, the others are sorted so that most ranges delete something
+		a, b := genKey(0).Draw(t, "ra"), genKey(0).Draw(t, "rb")
+		if rapid.IntRange(0, 3).Draw(t, "rangeOrder") != 0 && bytes.Compare(a, b) > 0 {
 			a, b = b, a
+		}
+		if len(b) == 0 && rapid.Bool().Draw(t, "nilEnd") {
+			b = nil
+		}
+		if len(a) == 0 && rapid.Bool().Draw(t, "nilStart") {
+			a = nil
 		}
 		return ref.Op{Kind: 'r', A: a, B: b}
 	}
